@@ -323,6 +323,20 @@ pub fn tx_monitors(h: &Hist, ms: &mut MonState, b: &Obs, line: &str, res: &str, 
                 if !enabled { out.push(format!("mon_disabled {} {}", what, ok as u8)); }
             }
         }
+        // C17 by EFFECT, whatever pool the message names: no LP of a pool is burned while its withdrawals are off, none minted
+        // while its deposits are off, and with swaps off its reserves move only together with its LP supply
+        if ok {
+            for pb in b.pools.iter() {
+                let id = &pb.pool_info.pool_identifier;
+                if let Some(pa) = pool(a, id) {
+                    let (sb, sa) = (supply_of(b, id), supply_of(a, id));
+                    let st = &pb.pool_info.status;
+                    if sa < sb && !st.withdrawals_enabled { out.push("mon_disabled withdraw 1".to_string()); }
+                    if sa > sb && !st.deposits_enabled { out.push("mon_disabled deposit 1".to_string()); }
+                    if sa == sb && pa.assets != pb.pool_info.assets && !st.swaps_enabled { out.push("mon_disabled swap 1".to_string()); }
+                }
+            }
+        }
         // C17: a toggle sets exactly the switches it names on exactly the pool it names
         if ok && tx.kind == "config" {
             for pb in b.pools.iter() {
@@ -593,6 +607,18 @@ pub fn tx_monitors(h: &Hist, ms: &mut MonState, b: &Obs, line: &str, res: &str, 
                 let out_total = y.saturating_sub(reserve(pa, &ask_d));
                 let net = if tx.kind == "swap" { attr(h, "return_amount").unwrap_or(0) } else { out_total };
                 out.push(format!("mon_cp_slippage {} {} {} {} {} {}", tol, x, y, tx.funds[0].1, net, (tx.kind == "swap") as u8));
+            }
+            // stableswap, direct swap without a belief price: the spread is the shortfall of the gross output against the offer,
+            // both at the pool's highest precision, expressed in ask units; spread / (return + spread) within the tolerance
+            if !matches!(pb.pool_type, PoolType::ConstantProduct) && tx.kind == "swap" && belief == "-" {
+                let offer_d = &tx.funds[0].0;
+                let dec_of = |d: &str| -> Option<u8> { pb.asset_denoms.iter().position(|x| h.w.cd(x) == d).map(|i| pb.asset_decimals[i]) };
+                if let (Some(od), Some(ad), Some(mx)) = (dec_of(offer_d), dec_of(&ask_d), pb.asset_decimals.iter().max().copied()) {
+                    let net = attr(h, "return_amount").unwrap_or(0);
+                    let gross = net + attr(h, "swap_fee_amount").unwrap_or(0) + attr(h, "protocol_fee_amount").unwrap_or(0)
+                        + attr(h, "burn_fee_amount").unwrap_or(0) + attr(h, "extra_fees_amount").unwrap_or(0);
+                    out.push(format!("mon_ss_slippage {} {} {} {} {} {} {}", tol, od, ad, mx, tx.funds[0].1, gross, net));
+                }
             }
         }
     }
